@@ -28,6 +28,8 @@ def monitor(case, obs):
     prev_stack = None
     for i, ev, ctx in x.events():
         if ctx.get("reader"): continue
+        if ev[0] == "api" and ev[1] in ("push", "push_modal", "replace", "schedule"):
+            failed[ev[2]] = False           # a new occurrence of the screen on the stack: "discarded without ever being refreshed, drawn or prompted" is per occurrence
         if ev[0] == "api" and ev[1] == "replace": in_replace += 1
         if ev[0] == "api<" and ev[1] == "replace": in_replace = max(0, in_replace - 1)
         if ev[0] == "cb":
